@@ -295,6 +295,20 @@ Definition ak_load (x : ext) (t : text) : option ak_state :=
   | _ => ak_load_from_lines x (splitlines t)
   end.
 
+(* read_authorized_keys([file1; file2; ...]): one load() per file on the same object; the
+   "No valid entries found" test is made after each file on everything loaded so far *)
+Fixpoint ak_load_files_from (x : ext) (ts : list text) (st : ak_state) : option ak_state :=
+  match ts with
+  | [] => Some st
+  | t :: r =>
+      match ak_load_lines x (splitlines t) st with
+      | Some st' => if nonempty (ak_user st') || nonempty (ak_ca st') then ak_load_files_from x r st' else None
+      | None => None
+      end
+  end.
+
+Definition ak_load_files (x : ext) (ts : list text) : option ak_state := ak_load_files_from x ts ak_empty.
+
 (* _SSHAuthorizedKeyEntry.match_options (from and principals); None = an exception *)
 Definition match_options (x : ext) (m : optmap) (host addr : text) (princs : option (list text))
   : option bool :=
